@@ -1,3 +1,5 @@
 //! Independent f64 reference model. Written from the published definitions; shares no code
 //! and no constants with palette.
+pub mod ok;
+pub mod space;
 pub mod transfer;
